@@ -409,8 +409,13 @@ pub fn observe(h: &HCtx, var_probes: &[String], fn_probes: &[String]) -> Observe
     let mut names: Vec<String> = h.iter_variable_names().collect();
     names.sort();
     let lookups = var_probes.iter().map(|n| (n.clone(), h.get_value(n).map(to_rv))).collect();
+    // A builtin name is probed only while builtins are disabled: with builtins enabled a context may
+    // answer `call_function` for a builtin name itself or leave that to the evaluator — which layer
+    // resolves builtins is not claimed by any property (resolution inside expressions is C09's).
+    let builtins_on = !h.are_builtin_functions_disabled();
     let functions = fn_probes
         .iter()
+        .filter(|n| !(builtins_on && refmodel::builtins::is_builtin(n)))
         .map(|n| {
             let r = h.call_function(n, &Value::Int(1));
             let found = !matches!(&r, Err(EvalexprError::FunctionIdentifierNotFound(m)) if m == n);
